@@ -81,7 +81,7 @@ def cases(tier, seed):
             for (cap, ns, sel, sample, b) in ((6, 2, 2, 3, 2), (7, 3, 1, 2, 3), (5, 1, 2, 2, 1), (8, 2, 3, 4, 2), (6, 6, 1, 2, 2)):
                 n += 1
                 land = lands[n % 3]
-                ret = "vec" if n % 2 else "scalar"
+                ret = ["vec", "scalar", "vec2", "scalar"][n % 4]
                 iters = min(14, start + every * ((cap - ns) // sel + 2) + 1)
                 k = sd + n
                 if q and (n % 2) and cap > 6:
@@ -93,6 +93,8 @@ def cases(tier, seed):
                 # time and space with different initial counts, capacities and selected sizes
                 cap2, ns2, sel2 = cap + 1 - (n % 3), max(1, ns + 1 - (n % 3)), 1 + (sel % 3)
                 cap2 = max(cap2, ns2)
+                if ret == "vec2":
+                    ret = "vec"          # the non-stationary refinement reshapes the residual to (times, points): one component only
                 out.append(dict(kind="nonstatio", dim=1 + ((n + 1) % 2), cap_t=cap, nstart_t=ns, sel_t=sel, sample_t=max(sample, 2), b_t=min(b, cap),
                                 cap_x=cap2, nstart_x=ns2, sel_x=sel2, sample_x=max(sel2, 3), b_x=min(b, cap2), start=start, every=every,
                                 iters=iters, seed=k, land=land, ret=ret))
@@ -148,6 +150,23 @@ def run(pid, tier, seed, assumptions, rule):
             viol.append(dict(clause=r["clause"], sig=sig_of(t["cfg"], r["clause"]), detail=f"event {r['ev']}",
                              driver="harness.drv_rar:run_case", cfg=t["cfg"], record=t))
         rc, n_new, n_known = core.report(pid, viol)
+        import copy
+        badt = {r["tid"] for r in rej}
+        st_recs = []
+        base = next((t for k, t in enumerate(slim) if k not in badt and any(e["stepped"] and e["hooked"] for e in t["ev"]) and len(t["axes"]) == 1), None)
+        if base is not None:
+            k = next(i for i, e in enumerate(base["ev"]) if e["stepped"] and e["hooked"])
+            if pid == "C17":
+                c = copy.deepcopy(base); c["ev"][k]["hooked"] = False
+                st_recs.append((c, "HookEventMissing", "hook H1 event removed from a refinement step"))
+                c = copy.deepcopy(base); c["ev"][k]["after"][0]["order"][0] = 0
+                st_recs.append((c, None, "an active point replaced during a refinement step"))
+            else:
+                c = copy.deepcopy(base); m = c["ev"][k]["after"][0]["mask"]; m[m.index(True)] = False
+                st_recs.append((c, None, "one active slot reported inactive after a step"))
+                c = copy.deepcopy(base); c["ev"][k]["stepped"] = False
+                st_recs.append((c, None, "a refinement step reported as no step"))
+        nself = tracecheck.selftest("Trace_Rar", TRACE_CFG % pid, st_recs, sc, "st" + pid)
         steps_seen = sum(1 for t in live for e in t["ev"] if e["stepped"])
         full_seen = sum(1 for t in live if t["ev"] and any(
             ax["nstart"] + (t["ev"][-1]["steps"] + 1) * ax["sel"] > ax["cap"] for ax in t["axes"]))
@@ -160,7 +179,7 @@ def run(pid, tier, seed, assumptions, rule):
             exhaustive=True, model_checking=mc_info, traces_total=len(traces), traces_skipped=len(skipped),
             trace_events=sum(len(t["ev"]) for t in live), refinement_steps_observed=steps_seen, traces_reaching_capacity=full_seen,
             traces_through_solve=sum(1 for t in live if t["cfg"].get("mode") == "solve"), traces_rejected=len(rej),
-            known_finding_hits=n_known, rule=rule)
+            known_finding_hits=n_known, binding_selftests_rejected=nself, rule=rule)
         core.write_evidence(pid, tier, seed, "model_checking", cov, assumptions, time.time() - t0, n_new)
         print(f"{pid} [{tier}] MC states={states} traces={len(live)} accepted={acc} rejected={len(rej)} (new={n_new} known={n_known}) "
               f"steps={steps_seen} full={full_seen} wall={time.time() - t0:.0f}s")
